@@ -75,7 +75,8 @@ extern ssize_t mpt_array_push(MPT_STRUCT(encode_array) *arr, size_t len, const v
 	else if (b->_content_traits) {
 		return MPT_ERROR(BadType);
 	}
-	else if (!(b = b->_vptr->detach(b, max + add))) {
+	/* consumed data may still precede the live part */
+	else if (!(b = b->_vptr->detach(b, (b->_used > max ? b->_used : max) + add))) {
 		return MPT_ERROR(BadOperation);
 	}
 	else {
